@@ -16,7 +16,7 @@ started from the journalled incumbent.  The driver
   `is_satisfiable()` answers.
 
 Verdicts: `ok <case> <what> <id>`, `skip <case> <what> <id> <why>`,
-`MISMATCH <case> <obligation> <id> <detail>` with obligation ∈ {lp-oracle, node, branch-var, sat-node, top}. -/
+`MISMATCH <case> <obligation> <id> <detail>` with obligation ∈ {lp-oracle, sub-answer, sat-answer, node, branch-var, sat-node, top}. -/
 namespace PPLV.Solver.BBDriver
 open PPLV.Lin PPLV.Solver PPLV.Solver.BB
 
@@ -326,6 +326,21 @@ def finishCase (cs : Case) : M Unit := do
       match snodes.lookup l.id, l.res with
       | some _, .timeout => skip c "sat-node" l.id "timeout"
       | some N, r =>
+        -- the conclusions of `C06.is_mip_satisfiable_sound`, judged on the REAL result
+        (match r with
+         | .yes p =>
+           if decide (0 < p.den) && checkFeasible N.toProblem p then ok c "sat-answer" l.id
+           else bad c "sat-answer" l.id s!"is_mip_satisfiable true, but its point {ptStr n p} violates a row of the node or an integrality requirement"
+         | .no =>
+           match mipSize N.toProblem with
+           | some sz =>
+             if sz > 300 then skip c "sat-answer" l.id "size"
+             else match mipRef N.toProblem with
+               | .unfeasible => ok c "sat-answer" l.id
+               | .unknownUnboundedIntVar => skip c "sat-answer" l.id "unbounded-int-var"
+               | a => bad c "sat-answer" l.id s!"is_mip_satisfiable false, reference {repr a}"
+           | none => skip c "sat-answer" l.id "unbounded-int-var"
+         | .timeout => pure ())
         match isMipSatisfiable soracle fuel N with
         | none => skip c "sat-node" l.id (if cs.cut then "tree-cut" else "oracle-missing-or-fuel")
         | some m =>
